@@ -100,7 +100,7 @@ def _calls_in_order(st):
 
 def run(w: World, rep: Report):
     rep.rule('C12.R1', 'every size handed to tape.read in decompile_script (and in the generated soft-fork '
-             'decompiler handler) is a non-negative constant or an unsigned decode', floor=35)
+             'decompiler handler) is a non-negative constant or an unsigned decode', floor=24)
     rep.rule('C12.R2', 'every iteration of the decompiler main loop starts with a >= 1 byte read', floor=1)
     rep.rule('C12.R3', 'every recursive decompile call is on bytes read from the same tape after >= 1 byte, '
              'hence strictly shorter', floor=7)
@@ -248,7 +248,9 @@ def run(w: World, rep: Report):
     missing = sorted(set(vm_shapes) - seen_ops)
     rep.check('C12.R4', 'parsing.decompile_script|all-ops-covered', not missing and 'NOP' in seen_ops, file=RELP,
               why='' if not missing else f'ops without a decompiler arm: {missing}')
-    if n_reads < 35:
+    if n_reads < 24:
+        # every op is accounted for by all-ops-covered / R4; this floor only guards against an empty inventory
+        # (arms for ops with the same operand layout may legitimately be merged)
         raise AnalysisError(f'only {n_reads} reads found in decompile_script')
 
     # generated soft-fork decompiler handler
